@@ -38,6 +38,16 @@ func bubbleGoroutines() (n int, dump string) {
 	return
 }
 
+func teffOf(tset string) time.Duration {
+	switch tset {
+	case "1s":
+		return time.Second
+	case "10s":
+		return 10 * time.Second
+	}
+	return 5 * time.Second
+}
+
 func runC20(x *mc.X) {
 	tset := mc.Pick(x, "swr-timeout-option", []string{"unset", "0", "-1s", "1s", "10s"})
 	lat := mc.Pick(x, "origin-latency", []string{"0", "1s", "T-1ns", "T+1ns", "2T", "never"})
@@ -48,6 +58,11 @@ func runC20(x *mc.X) {
 	logger := mc.Pick(x, "logger", []string{"", "text"})
 	window := mc.Pick(x, "swr-window", []string{"100000", "7"}) // 7: only 2 s of the window are left when the stale response is served
 	qualified := x.Choose("stored-no-cache-names-the-validators", 2) == 1
+	// once the body is closed the caller may reuse its request object (net/http.RoundTripper): it changes a field and the URL
+	reuse := x.Choose("caller-reuses-its-request-object", 2) == 1
+	if reuse && !(second == "none" && cctx == "background" && logger == "" && window == "100000" && !qualified && lat == "1s" && teffOf(tset) > time.Second) {
+		x.Skip()
+	}
 	if window == "7" && second != "none" {
 		x.Skip() // a later request would fall outside the window and be validated in the foreground
 	}
@@ -110,6 +125,7 @@ func runC20(x *mc.X) {
 		cond     string
 	}
 	var bgs []*bgCall
+	sharedWithCaller := ""
 	answerFn(w, func(o *world.Origin, c *world.Call) (*http.Response, error) {
 		b := &bgCall{tag: c.Header.Get("X-Req"), start: time.Now(), doneAt: -1, cond: fmt.Sprintf("inm=%q ims=%q", c.Header.Get("If-None-Match"), c.Header.Get("If-Modified-Since"))}
 		bgs = append(bgs, b)
@@ -133,6 +149,9 @@ func runC20(x *mc.X) {
 			return nil, ctx.Err()
 		}
 		b.answered = true
+		if live := c.Req.Header.Get("X-Req"); live != b.tag || c.Req.URL.String() != c.URL {
+			sharedWithCaller = fmt.Sprintf("the request that reached the origin as %s (X-Req: %s) reads %s (X-Req: %s) when the origin answers", c.URL, b.tag, c.Req.URL, live)
+		}
 		switch outcome {
 		case "304":
 			if c.Header.Get("If-None-Match") != "" || c.Header.Get("If-Modified-Since") != "" {
@@ -172,6 +191,11 @@ func runC20(x *mc.X) {
 	o2 := w.Do(req)
 	took := time.Since(t0)
 	world.Quiesce() // the background request reaches the origin (and waits there) before anything else happens
+	if reuse {
+		req.Header.Set("X-Req", "reused-by-caller")
+		req.Header.Set("If-None-Match", `"callers-next"`)
+		req.URL.RawQuery = "page=2"
+	}
 	switch cctx {
 	case "cancelled-after-return":
 		cancel()
@@ -208,6 +232,16 @@ func runC20(x *mc.X) {
 		}
 		world.Quiesce()
 	}
+	if reuse && (outcome == "304" || outcome == "200") {
+		// the revalidation result is written back for the request it was made for: one second after it the original request is served fresh
+		world.Advance(L + time.Second)
+		o4 := w.Do(world.Req("GET", U, "X-Req", "after"))
+		x.Logf("same request again 1 s after the background revalidation -> %s", o4)
+		if o4.Err == nil && o4.Panic == nil && (o4.CacheStatus != "HIT" || len(o4.Calls) != 0) {
+			x.Failf("background revalidation result not stored for the request it was made for", "the caller reused its request object meanwhile; the original request is now answered %s", o4)
+			return
+		}
+	}
 	// let everything run its course: beyond the latency and the timeout
 	world.Advance(2*teff + 3*time.Second)
 	if second == "after" {
@@ -227,6 +261,10 @@ func runC20(x *mc.X) {
 	x.State(cls, validators, fmt.Sprint(len(bgs)))
 	x.Transitions(2 + len(bgs))
 	x.Sample(map[string]any{"swr_timeout_option": tset, "effective_timeout": teff.String(), "origin_latency": lat, "background_outcome": outcome, "caller_context": cctx, "second_request": second, "background_calls": len(bgs)})
+	if sharedWithCaller != "" {
+		x.Failf("background revalidation works on the caller's request object", "%s", sharedWithCaller)
+		return
+	}
 	if len(bgs) != stale {
 		x.Failf(fmt.Sprintf("%d background revalidation requests for %d stale responses served", len(bgs), stale), "T=%s L=%s outcome=%s ctx=%s second=%s", tset, lat, outcome, cctx, second)
 		return
@@ -239,13 +277,11 @@ func runC20(x *mc.X) {
 		if b.answered {
 			continue
 		}
-		// unanswered: the context must have ended at the effective timeout — earlier only with the caller's own context
-		want := teff
-		if b.tag == "first" && callerEnds >= 0 && callerEnds < teff {
-			want = callerEnds
-		}
-		if b.doneAt != want {
-			x.Failf(fmt.Sprintf("background request not cancelled at the timeout (option %s)", tset), "call %d: context ended after %v, want %v (effective timeout %v, caller context %s)", i, b.doneAt, want, teff, cctx)
+		// unanswered: the context must have ended at the effective timeout — earlier only together with the caller's own
+		// context (a background request that is detached from the caller's context and runs until the timeout is fine too)
+		withCaller := b.tag == "first" && callerEnds >= 0 && callerEnds < teff && b.doneAt == callerEnds
+		if b.doneAt != teff && !withCaller {
+			x.Failf(fmt.Sprintf("background request not cancelled at the timeout (option %s)", tset), "call %d: context ended after %v, want %v (effective timeout %v, caller context %s ending after %v)", i, b.doneAt, teff, teff, cctx, callerEnds)
 		}
 	}
 	cancel()
